@@ -156,6 +156,101 @@ Fixpoint run_v (ops : list op) (st : vstate) (given : list Z) : vstate * list Z 
   | o :: t => run_v t (fst (step o st)) (ghost_step o st given)
   end.
 
+(* ------------------------------------------------------------------ part 1b: delay blocks on state.layers
+   While a `delay_callback(viewer.state, 'layers')` block is open (dl = true) the 'layers' callback
+   _sync_layer_artist_container is held back until the block is left; the container's own on_changed callback
+   (_sync_state_layers) still runs at once.  The functions below are the handlers of part 1 with that one difference;
+   with dl = false they are the handlers of part 1 (step_d_false in the proofs). *)
+Definition sync_container_d (dl : bool) (st : vstate) : vstate := if dl then st else sync_container st.
+
+Definition add_layer_d (dl : bool) (l : layer) (st : vstate) : vstate :=
+  let st1 := sync_container_d dl (set_v st (arts st) (sls st ++ [l])) in
+  sync_state_layers (set_v st1 (arts st1 ++ [l]) (sls st1)).
+Definition add_subset_layer_d (dl : bool) (l : layer) (st : vstate) : vstate :=
+  if has l (arts st) then st else add_layer_d dl l st.
+Definition add_data_d (dl : bool) (d : Z) (st : vstate) : vstate * Z :=
+  if has (LData d) (arts st) then (st, 0)
+  else if negb (zmem d (dc st)) then (st, 1)
+  else (fold_left (fun v s => add_subset_layer_d dl (lay s) v) (dsubs (subs st) d) (add_layer_d dl (LData d) st), 0).
+Definition remove_data_d (dl : bool) (d : Z) (st : vstate) : vstate :=
+  sync_state_layers (sync_container_d dl (set_v st (arts st) (filter (fun l => negb (layer_data l =? d)) (sls st)))).
+Definition remove_subset_d (dl : bool) (l : layer) (st : vstate) : vstate :=
+  if has l (arts st)
+  then sync_container_d dl (sync_state_layers (set_v st (filter (fun a => negb (layer_eqb l a)) (arts st)) (sls st)))
+  else st.
+Definition on_sub_created_d (dl : bool) (s : sub) (st : vstate) : vstate :=
+  if has (LData (s_d s)) (arts st) then add_subset_layer_d dl (lay s) st else st.
+Definition on_sub_deleted_d (dl : bool) (s : sub) (st : vstate) : vstate := remove_subset_d dl (lay s) st.
+
+Definition step_d (dl : bool) (o : op) (st : vstate) : vstate * Z :=
+  match o with
+  | Append d =>
+      if zmem d (dc st) then (st, 0) else
+      let nw := new_subs (next st) (map (fun g => (d, g)) (groups st)) in
+      let st1 := mkV (fixed st) (dc st ++ [d]) (groups st) (subs st ++ nw) (next st + Z.of_nat (length nw)) (arts st) (sls st) in
+      (fold_left (fun v s => on_sub_created_d dl s v) nw st1, 0)
+  | Remove d =>
+      if negb (zmem d (dc st)) then (st, 0) else
+      let sb := if fixed st
+                then filter (fun s => negb ((s_d s =? d) && s_live s)) (subs st)
+                else map (fun s => if s_d s =? d then unlive s else s) (subs st) in
+      (* with the C06 repair every live subset of d is deleted by its group: one SubsetDeleteMessage each *)
+      let gone := if fixed st then filter (fun s => (s_d s =? d) && s_live s) (subs st) else [] in
+      (fold_left (fun v s => on_sub_deleted_d dl s v) gone
+         (remove_data_d dl d (mkV (fixed st) (zremove d (dc st)) (groups st) sb (next st) (arts st) (sls st))), 0)
+  | NewGroup g =>
+      if zmem g (groups st) then (st, 0) else
+      let nw := new_subs (next st) (map (fun d => (d, g)) (dc st)) in
+      let st1 := mkV (fixed st) (dc st) (groups st ++ [g]) (subs st ++ nw) (next st + Z.of_nat (length nw)) (arts st) (sls st) in
+      (fold_left (fun v s => on_sub_created_d dl s v) nw st1, 0)
+  | RemoveGroup g =>
+      if negb (zmem g (groups st)) then (st, 0) else
+      let dead := filter (fun s => (s_g s =? g) && s_live s) (subs st) in
+      let st1 := mkV (fixed st) (dc st) (zremove g (groups st))
+                     (filter (fun s => negb ((s_g s =? g) && s_live s)) (subs st)) (next st) (arts st) (sls st) in
+      (fold_left (fun v s => on_sub_deleted_d dl s v) dead st1, 0)
+  | AddData d => add_data_d dl d st
+  | RemoveData d => (remove_data_d dl d st, 0)
+  | AddSubset s d g =>
+      if zmem d (dc st) && sub_known (subs st) s d g then (add_subset_layer_d dl (LSub s d g) st, 0) else (st, 2)
+  | RemoveLayer d => (remove_subset_d dl (LData d) st, 0)
+  | SaveRestore =>
+      (mkV (fixed st) (dc st) (groups st) (filter (fun s => zmem (s_d s) (dc st)) (subs st)) (next st) (arts st) (sls st), 0)
+  end.
+
+(* operations with delay blocks: entering the block (echo remembers the value of state.layers), leaving it (the
+   held-back callback runs now - but only if state.layers differs from the remembered value) *)
+Inductive dop := Plain (o : op) | LBegin | LEnd.
+
+Fixpoint layers_eqb (a b : list layer) : bool :=
+  match a, b with
+  | [], [] => true
+  | x :: a', y :: b' => layer_eqb x y && layers_eqb a' b'
+  | _, _ => false
+  end.
+Definition is_some {A} (o : option A) : bool := match o with Some _ => true | None => false end.
+
+Definition dstep (x : dop) (p : vstate * option (list layer)) : (vstate * option (list layer)) * Z :=
+  match x with
+  | Plain o => let r := step_d (is_some (snd p)) o (fst p) in ((fst r, snd p), snd r)
+  | LBegin => (match snd p with None => (fst p, Some (sls (fst p))) | Some _ => p end, 0)
+  | LEnd =>
+      (match snd p with
+       | Some snap => (if layers_eqb snap (sls (fst p)) then fst p else sync_state_layers (sync_container (fst p)), None)
+       | None => p
+       end, 0)
+  end.
+Definition dghost (x : dop) (st : vstate) (given : list Z) : list Z :=
+  match x with Plain o => ghost_step o st given | _ => given end.
+
+Fixpoint run_d (ops : list dop) (p : vstate * option (list layer)) (given : list Z) : (vstate * option (list layer)) * list Z :=
+  match ops with
+  | [] => (p, given)
+  | x :: t => run_d t (fst (dstep x p)) (dghost x (fst p) given)
+  end.
+
+Definition no_blocks (ops : list dop) : bool := forallb (fun x => match x with Plain _ => true | _ => false end) ops.
+
 (* ================================================================== part 2 *)
 Inductive choice := CNone | CSep (k d : Z) | CAtt (c : Z).
 
@@ -505,14 +600,23 @@ Definition resolve_op (st : vstate) (o : op) : op :=
   | _ => o
   end.
 
-Fixpoint trace_v (known : list Z) (ops : list op) (st : vstate) (given : list Z) : list tree :=
+Definition dec_dop (t : tree) : dop :=
+  match t with
+  | T 10 _ => LBegin
+  | T 11 _ => LEnd
+  | _ => Plain (dec_op t)
+  end.
+Definition resolve_dop (st : vstate) (x : dop) : dop :=
+  match x with Plain o => Plain (resolve_op st o) | _ => x end.
+
+Fixpoint trace_v (known : list Z) (ops : list dop) (p : vstate * option (list layer)) (given : list Z) : list tree :=
   match ops with
   | [] => []
-  | o :: t =>
-    let o' := resolve_op st o in
-    let '(st', status) := step o' st in
-    let given' := ghost_step o' st given in
-    T 0 [enc_vstate known status st'; zs given'] :: trace_v known t st' given'
+  | x :: t =>
+    let x' := resolve_dop (fst p) x in
+    let '(p', status) := dstep x' p in
+    let given' := dghost x' (fst p) given in
+    T 0 [enc_vstate known status (fst p'); zs given'] :: trace_v known t p' given'
   end.
 
 Definition dec_pair (t : tree) : Z * Z := (tag (kid 0 t), tag (kid 1 t)).
@@ -589,7 +693,7 @@ Fixpoint trace_a (ops : list aop) (a : axes) : list tree :=
 
 Definition run_case (t : tree) : tree :=
   match t with
-  | T 1 [fx; known; T _ ops] => T 0 (trace_v (to_zs known) (map dec_op ops) (init_v (nz fx)) [])
+  | T 1 [fx; known; T _ ops] => T 0 (trace_v (to_zs known) (map dec_dop ops) (init_v (nz fx), None) [])
   | T 2 [T _ ds; fl; T defidx _; hasdc; T _ ops] =>
       T 0 (trace_p (map dec_pop ops) (init_p (map dec_dinfo ds) (dec_flags fl) defidx (nz hasdc)))
   | T 3 [manual; dcl; T _ ops] => T 0 (trace_dp (map dec_dpop ops) (init_dp (nz manual) (to_zs dcl)))
